@@ -195,7 +195,10 @@ def driver_main(args):
       'wall_s': round(wall, 2),
       'violations': len(unknown),
   }
-  if not args.replay:
+  scratch_tree = os.environ.get('VV_REPO') not in (None, '', '/repo')
+  if scratch_tree:
+    print(f'NOTE: checked tree is {os.environ["VV_REPO"]} (scratch copy): evidence file not written')
+  if not args.replay and not scratch_tree:
     os.makedirs(os.path.join(VERIF, 'evidence'), exist_ok=True)
     with open(os.path.join(VERIF, 'evidence', f'{prop}.json'), 'w') as fh:
       json.dump(evidence, fh, indent=1, sort_keys=True)
